@@ -57,6 +57,24 @@ def r19_2(ctx):
     F = ctx.facts
 
     def body(r):
+        # "nothing to apply" must look at every list of the change-set (added, updated, deleted)
+        CS = "api::rules_message::RuleChangeSet"
+        ie = F.method(CS, "is_empty")
+        r.analysed(ie)
+        flds = [n for n, ty in F.adt_fields(CS)]
+        looked = set()
+        for p_ in Sym(ie, copies=True).paths():
+            if p_.end[0] != "ret" or p_.end[1] == ("const", False):
+                continue
+            seen_ = set()
+            for a, v in list(p_.conds) + [(p_.end[1], 1)]:
+                if a[0] == "call" and a[1].rsplit("::", 1)[1] == "is_empty" and v == 1:
+                    for fl in flds:
+                        if mentions_field(a[2][0], fl, CS):
+                            seen_.add(fl)
+            looked = seen_ if not looked else (looked & seen_)
+        r.ob("router:change-set-is_empty-reads-every-list", looked == set(flds), ie.site,
+             "RuleChangeSet::is_empty() answers true only when %s are all empty" % ", ".join(flds) if looked == set(flds) else "is_empty() can answer true without looking at %s: a change-set that only %s is skipped and the analysis runs on the unchanged router" % (sorted(set(flds) - looked), sorted(set(flds) - looked)))
         for proj, alone, shared in PAIRS:
             f = F.fn(proj)
             r.analysed(f)
@@ -172,6 +190,24 @@ def r19_3(ctx):
             else:
                 ok, why = request_time_first_inline(f, ordered)
                 r.ob("pipeline:%s:status" % name, bool(ok), f.site, why)
+        # which status each pipeline step is given: the proxies filter headers / bodies with the *backend* code and
+        # decide logging on the *final* code (the two results of get_final_status_code_with_fallback)
+        HELPER = "action::Action::get_final_status_code_with_fallback"
+        WANT = {"action::Action::filter_headers": (2, "backend"), "action::Action::create_filter_body": (1, "backend"), "action::Action::should_log_request": (2, "final")}
+        for name, key in ANALYSES.items():
+            f = F.fn(key)
+            pvr = Prov(f, copies=True)
+            if not any(cal and cal.key() == HELPER for bi, t_, cal in f.calls()):
+                continue
+            for bi, t_, cal in f.calls():
+                if cal is None or cal.key() not in WANT:
+                    continue
+                idx, want = WANT[cal.key()]
+                a_ = pvr.operand(t_["args"][idx])
+                comp = {x[2] for x in walk(a_) if x[0] == "field" and x[2] in ("0", "1") and x[1][0] == "call" and x[1][1] == HELPER}
+                role = "final" if comp == {"0"} else "backend" if comp == {"1"} else "?"
+                r.ob("pipeline:%s:%s-gets-%s-status" % (name, cal.name, want), role == want, f.loc(span_line(t_["s"])),
+                     "%s receives the %s status code" % (cal.name, want) if role == want else "%s receives %s (the %s code), the live pipeline gives it the %s code" % (cal.name, show(a_, f)[:60], role, want))
         # siblings that produce a full response agree on the whole sequence
         full = {n: s for n, s in seqs.items() if n in ("test_examples", "explain_request", "impact")}
         vals = list(full.values())
